@@ -119,7 +119,8 @@ func init() {
 Definition the_policy (o : option tl_policy) : tl_policy := match o with Some p => p | None => zero_policy end.
 Definition tl_consts_gen : tl_consts :=
   mkTlConsts legacy_protocol_version protocol_version
-    (the_policy policy_btc_v7) (the_policy policy_lbtc_v6) (the_policy policy_lbtc_v7).
+    (the_policy policy_btc_v7) (the_policy policy_lbtc_v6) (the_policy policy_lbtc_v7)
+    bitcoin_csv liquid_csv_legacy.
 `)
 		return b.String(), nil
 	})
